@@ -162,6 +162,8 @@ class Probe:
                 except ValueError:
                     raise HarnessBroken("probe sent non-JSON: %r" % line[:200])
                 if resp.get("id") != self.seq:
+                    if "harness_error" in resp:
+                        raise HarnessBroken("probe: %s" % resp["harness_error"])
                     # stale line from before a restart; skip
                     continue
                 st = "panic" if "panic" in resp else ("ok" if resp.get("ok") else "err")
